@@ -239,6 +239,7 @@ func (d *dir) gc(cur, prev time.Time) error {
 	if err != nil {
 		return fmt.Errorf("failed to list repos in gc: %w", err)
 	}
+	errs := []error{}
 	for _, r := range repoNames {
 		// if stop ch was closed, exit immediately
 		select {
@@ -260,10 +261,11 @@ func (d *dir) gc(cur, prev time.Time) error {
 		}
 		err = repo.gc()
 		if err != nil {
-			return err
+			// a failing repo must not prevent the GC of other repos
+			errs = append(errs, err)
 		}
 	}
-	return nil
+	return errors.Join(errs...)
 }
 
 // IndexGet returns the current top level index for a repo.
